@@ -4,5 +4,5 @@ Extraction Language OCaml.
 Extraction "../build/ocaml/c18/model.ml"
   get_insert_length_code get_copy_length_code combine_length_codes
   get_block_length_prefix_code prefix_encode_copy_distance restore_distance_code
-  distance_index_and_offset command_new cmd_copy_len cmd_copy_len_code store_command_extra
+  distance_index_and_offset command_new recompute_distance_prefix cmd_copy_len cmd_copy_len_code store_command_extra
   rfc_cell rfc_distance rfc_ins_base rfc_ins_extra rfc_copy_base rfc_copy_extra rfc_blen_base rfc_blen_extra.
